@@ -8,6 +8,7 @@ import FianoModel.Uefi.AbsLemmas
 import FianoModel.Uefi.PlaceLemmas
 
 namespace Fiano.Uefi
+open EditArith
 open Fiano
 
 /-! ### "the editor does not fire anywhere below this node" -/
